@@ -13,13 +13,14 @@ for _m in sorted(m.name for m in pkgutil.iter_modules(__path__)):
 # The rule is therefore also run under every property whose statement depends on that mechanism, under its own id.
 # (Rules that currently have known findings are not shared: known findings are keyed per property.)
 SHARED = {
-    "C01": [("C16", "R16a"), ("C16", "R16b"), ("C06", "R06b"), ("C06", "R06d"), ("C15", "R15a"), ("C05", "R05a"), ("C05", "R05c"), ("C04", "R04d")],
+    "C01": [("C16", "R16a"), ("C16", "R16b"), ("C06", "R06b"), ("C06", "R06d"), ("C15", "R15a"), ("C05", "R05a"), ("C05", "R05c"), ("C04", "R04d"), ("C16", "R16f")],
     "C02": [("C06", "R06d"), ("C07", "R07f")],
-    "C03": [("C16", "R16c"), ("C01", "R01c"), ("C05", "R05a"), ("C05", "R05b"), ("C16", "R16a")],
+    "C03": [("C16", "R16c"), ("C16", "R16f"), ("C01", "R01c"), ("C05", "R05a"), ("C05", "R05b"), ("C16", "R16a")],
     "C04": [("C02", "R02d"), ("C11", "R11c")],
-    "C06": [("C16", "R16a"), ("C16", "R16e"), ("C16", "R16c")],
+    "C05": [("C16", "R16f")],
+    "C06": [("C16", "R16a"), ("C16", "R16e"), ("C16", "R16c"), ("C16", "R16f")],
     "C12": [("C11", "R11a"), ("C11", "R11b"), ("C11", "R11c"), ("C11", "R11e"), ("C13", "R13a"), ("C13", "R13b"), ("C07", "R07e"), ("C07", "R07a")],
-    "C13": [("C16", "R16c"), ("C16", "R16d")],
+    "C13": [("C16", "R16c"), ("C16", "R16d"), ("C16", "R16f")],
     "C14": [("C07", "R07e")],
     "C19": [("C16", "R16e")],
     "C20": [("C05", "R05d"), ("C12", "R12d")],
